@@ -274,6 +274,14 @@ generate_wrappers() {
       record_function(dummy_type, func_index);
     }
   }
+
+  // Recording the global functions may have defined more types: those that
+  // are only named in the signature of a global function.  They need their
+  // wrappers as well.
+  while (ti < idb->get_num_all_types()) {
+    TypeIndex type_index = idb->get_all_type(ti++);
+    record_object(type_index);
+  }
 }
 
 /**
